@@ -562,10 +562,52 @@ func waitsOnAllPaths(fn *ssa.Function, wgField string) bool {
 
 // isClosedPredicate: a function returning bool whose body is a non-blocking select on a lifecycle channel.
 func isClosedPredicate(p *Prog, fn *ssa.Function, isLifecycle func(map[string]bool) bool) bool {
+	return isClosedPredicateD(p, fn, isLifecycle, 2)
+}
+
+func isClosedPredicateD(p *Prog, fn *ssa.Function, isLifecycle func(map[string]bool) bool, depth int) bool {
 	if fn.Blocks == nil || fn.Signature.Results().Len() != 1 {
 		return false
 	}
 	found := false
+	// a predicate that delegates to a shared helper (isClosed() { return isSignalled(r.close) }): the helper polls
+	// the channel it is given, and this call gives it a lifecycle channel
+	if depth > 0 {
+		instrsOf(fn, func(in ssa.Instruction) {
+			c, ok := in.(*ssa.Call)
+			if !ok {
+				return
+			}
+			sc := c.Call.StaticCallee()
+			if sc == nil || !p.InUniverse(sc) || sc.Blocks == nil || sc.Signature.Results().Len() != 1 {
+				return
+			}
+			polls := -1
+			instrsOf(sc, func(in2 ssa.Instruction) {
+				if s, ok := in2.(*ssa.Select); ok && !s.Blocking {
+					for _, st := range s.States {
+						if par, ok := p.origin(st.Chan).(*ssa.Parameter); ok && st.Dir == types.RecvOnly {
+							for i, q := range sc.Params {
+								if q == par {
+									polls = i
+								}
+							}
+						}
+					}
+				}
+			})
+			if polls >= 0 && polls < len(c.Call.Args) && isLifecycle(chanIdents(p, c.Call.Args[polls])) {
+				for _, b := range fn.Blocks {
+					if ret, ok := b.Instrs[len(b.Instrs)-1].(*ssa.Return); ok && len(ret.Results) == 1 && p.origin(ret.Results[0]) == ssa.Value(c) {
+						found = true
+					}
+				}
+			}
+		})
+		if found {
+			return true
+		}
+	}
 	instrsOf(fn, func(in ssa.Instruction) {
 		if s, ok := in.(*ssa.Select); ok && !s.Blocking {
 			for _, st := range s.States {
